@@ -98,3 +98,11 @@ package internal
 //@ func MustCompile in github.com/gobwas/glob trusted props C06,C18
 //@   ensures result != nil
 //@   modifies nothing
+
+// ---- command parsing helpers used by dispatch (frame-only, assumed: they parse and look up, they write nothing) -----
+//@ func Decode trusted props C07
+//@   modifies nothing
+//@ func GetSubCommand trusted props C07
+//@   modifies nothing
+//@ func IsWriteCommand trusted props C07
+//@   modifies nothing
